@@ -267,7 +267,7 @@ class Message(object):
 
 
 def build_message(ids, B, D, policy, nsub=1, compressed=False, edition=4, meta=None, sec2=None,
-                  surplus=None, inline_sequences=False, pad_bits=0, grey221=False):
+                  surplus=None, inline_sequences=False, pad_bits=0, grey221=False, grey31=False):
     out = WBits()
     walkers = []
     spans = []
@@ -275,6 +275,7 @@ def build_message(ids, B, D, policy, nsub=1, compressed=False, edition=4, meta=N
     if compressed:
         w = PWalker(B, D, out, True, nsub, policy, inline_sequences)
         w.grey221 = grey221
+        w.grey31 = grey31
         w.run(ids)
         walkers.append(w)
         feat = w.feat
@@ -283,6 +284,7 @@ def build_message(ids, B, D, policy, nsub=1, compressed=False, edition=4, meta=N
             st = out.n
             w = PWalker(B, D, out, False, 1, policy, inline_sequences)
             w.grey221 = grey221
+            w.grey31 = grey31
             w.run(ids)
             walkers.append(w)
             feat += w.feat
